@@ -49,8 +49,9 @@ def run(chk, repo):
         is not None
     chk.ob("R25.3", sym, "the candidate is drawn from terminal_addr_range",
            ok, draws[0].stmt, "randint(*self.terminal_addr_range)")
-    tests = [n for n in cfg.nodes if n.kind == "test" and match(
-        f"{cand} in self.used_addresses", n.expr) is not None]
+    tests = [n for n in cfg.nodes if n.kind == "test" and (match(
+        f"{cand} in self.used_addresses", n.expr) is not None or match(
+        f"{cand} not in self.used_addresses", n.expr) is not None)]
     adds = [n for n in cfg.nodes if n.expr is not None and find(
         f"self.used_addresses.add({cand})", n.expr)]
     probes = [n for n in cfg.nodes if n.expr is not None and find(
@@ -61,8 +62,9 @@ def run(chk, repo):
     pre = [x for x in adds if x is not p and cfg.dominates(x, p)]
     a = pre[0] if pre else adds[0]
     st = t.stmt
-    skip = isinstance(st, ast.If) and any(isinstance(s, ast.Continue)
-                                          for s in st.body)
+    skip = has_fact(path_facts(a.stmt), f"{cand} in self.used_addresses",
+                    False) or has_fact(
+        path_facts(a.stmt), f"{cand} not in self.used_addresses", True)
     chk.ob("R25.1", sym, "a candidate that is already in use is skipped",
            skip, st, "if i in used_addresses: continue")
     aw = [m for m in cfg.between(t, a) if m is not t and m.expr is not None
